@@ -60,6 +60,7 @@ pub enum Op {
     Untrust(u8),
     MinterMint { slot: u8, to: u8, amount: u8 },
     OutUnknownToken { user: u8 },
+    AdvanceDays(u8),
 }
 
 #[derive(Clone, Debug, Serialize, Deserialize)]
@@ -94,6 +95,7 @@ fn op() -> impl Strategy<Value = Op> {
         1 => (0u8..3).prop_map(Op::Untrust),
         1 => (0u8..2, 0u8..NU as u8, 1u8..100).prop_map(|(slot, to, amount)| Op::MinterMint { slot, to, amount }),
         1 => (0u8..NU as u8).prop_map(|user| Op::OutUnknownToken { user }),
+        1 => (1u8..60).prop_map(Op::AdvanceDays),
     ]
 }
 
@@ -192,10 +194,17 @@ impl Property for C05 {
         let mut fail_after_success = false;
         let mut nontrivial = false;
         let mut exec_calls = 0u32;
+        let mut days_passed: u32 = 0;
 
         for (step, op) in case.ops.iter().enumerate() {
             env.mock_all_auths_allowing_non_root_auth();
             match op {
+                Op::AdvanceDays(d) => {
+                    if days_passed + *d as u32 <= 200 {
+                        days_passed += *d as u32;
+                        advance_ledgers(env, *d as u32 * 17280);
+                    }
+                }
                 Op::Trust(c) => {
                     let c = *c as usize % 3;
                     let ok = w.trust(CHAINS[c]);
